@@ -64,9 +64,9 @@ def tla_cfg(sc, status_texts=None):
     drv = {"kind": sc["driver"]["kind"], "size": sc["driver"].get("size", 4000), "extended": 1,
            "route": sc["driver"].get("route", [])}
     cfg = {"k": "cfg", "target": tgt, "driver": drv, "has_project": 1 if sc.get("project") else 0}
+    cfg["status_texts"] = status_texts or []
     if sc.get("project"):
         cfg["project"], cfg["mem"] = tla_project(sc["project"], sc["mem"])
-        cfg["status_texts"] = status_texts or []
     return cfg
 
 
